@@ -235,6 +235,7 @@ class Module:
         # bookkeeping of the request history: previous − removed + added, no variant for an idle close
         hist = self.sidecar.get('history') or []
         live, pending_add, pending_rm, expect, first = [], [], [], [], True
+        expect_order = []
         for s in hist:
             if s['op'] == 'add':
                 pending_add.append(s['name'])
@@ -247,6 +248,7 @@ class Module:
                 if first or pending_add or pending_rm:
                     live = [n for n in live if n not in pending_rm] + pending_add
                     expect.append(sorted(live))
+                    expect_order.append(list(live))
                 first = False
                 pending_add, pending_rm = [], []
         names = {x['id']: x['name'] for x in d['data']}
@@ -256,6 +258,15 @@ class Module:
             k = next((i for i, (a, b_) in enumerate(zip(got, expect)) if a != b_), min(len(got), len(expect)))
             self.add(['C12'], 'G-HISTORY', 'variant %d' % k,
                      'the definition built for this request history has variants %s, the history means %s (previous minus removed plus added; no variant for a close without pending change)' % (got, expect), key='history')
+        elif self.sidecar.get('serde'):
+            # declaration order (C15: fields are encoded in declaration order): every fragment lists
+            # the fields of a variant by datum id, so id order must be the order of the requests
+            got_order = [[names[i] for i in sorted(var['data'])] for var in d['variants']]
+            for k, (a, b_) in enumerate(zip(got_order, expect_order)):
+                if a != b_:
+                    self.add(['C15', 'C12'], 'G-HISTORY', 'variant %d' % k,
+                             'fields of variant %d are listed as %s, the order of declaration is %s' % (k, a, b_), key='order')
+                    break
         ids = [x['id'] for x in d['data']]
         if ids != list(range(len(ids))):
             self.add(['C12'], 'G-HISTORY', None, 'datum ids are not 0..n-1 in creation order: %s' % ids, key='ids')
@@ -785,8 +796,12 @@ class Module:
                 d = ev[idx_dup[0]]
                 if d[3] != 'manually_drop':
                     self.add(['C06'], 'G-CONV', b.key, 'old record is bit-copied while it is still going to be dropped (not inside ManuallyDrop)', key='conv.%d.md' % v)
-                if any(i > idx_dup[0] for i in idx_rd):
-                    self.add(['C05', 'C06'], 'G-CONV', b.key, 'a removed field is read after the buffer was duplicated', key='conv.%d.order' % v)
+                # A removed value may be read out of the old buffer before the copy or out of the copy
+                # afterwards (the interpreter reports a store over bytes whose value was not read yet,
+                # G-STORE, and a value left behind, G-INV); reading the *old* buffer after the copy
+                # would create a second owner.
+                if any(i > idx_dup[0] and ev[i][1] != d[2] for i in idx_rd):
+                    self.add(['C05', 'C06'], 'G-CONV', b.key, 'a removed field is read out of the old buffer after that buffer was duplicated', key='conv.%d.order' % v)
                 if any(i < idx_dup[0] for i in idx_wr):
                     self.add(['C05'], 'G-CONV', b.key, 'an added field is written before the buffer was duplicated', key='conv.%d.order2' % v)
             reads = [(e[2], e[3]) for e in ev if e[0] == 'read']
@@ -795,33 +810,38 @@ class Module:
                 self.add(['C05', 'C06'], 'G-CONV', b.key, 'conversion reads %s out of the old record, removed fields are %s' % (sorted(reads), want_reads), key='conv.%d.reads' % v)
 
     # -- clone
+    def check_clone_cells(self, b, st, oid, v, src_arg, props, what='clone'):
+        """Every field of the record held in buffer `oid` is a clone (droppable) or a copy of the
+        same-named field of the record behind parameter `src_arg`."""
+        def src_name(o):
+            # ('call', path, id, (('ref', ...)|('ref_cell', oid,k,T,mut,origin),)) or plain copy origin
+            if o and o[0] == 'call' and o[1].endswith('::clone') and len(o[3]) == 1 and o[3][0][0] == 'ref_cell':
+                rc = o[3][0]
+                return rc[5][-1] if rc[5] else None, (rc[2], rc[3]), rc[5]
+            if o and o[0] == 'arg':
+                return o[-1], None, o
+            return None, None, o
+        for c in self.F[v]:
+            cell = self.cell_of(st, oid, c)
+            if cell is None:
+                self.add(props, 'G-CLONE', b.key, '%s: field `%s` is not initialised in the copy' % (what, c.name), key='%s.%d.%s' % (what, v, c.name))
+                continue
+            o = self.origin(st, cell.val)
+            nm, kt, full = src_name(o)
+            ok = nm is not None and self.cn(v, nm) == self.cn(v, c.name) and full is not None and full[:3] == ('arg', src_arg, '*') and (kt is None or kt == (c.k, c.ty))
+            if not ok:
+                self.add(props, 'G-CLONE', b.key, '%s: field `%s` of the copy comes from %s, expected a clone/copy of the source\'s `%s`' % (what, c.name, o, c.name), key='%s.%d.%s' % (what, v, c.name))
+            if c.needs_drop and o and o[0] == 'arg':
+                self.add(props + ['C06'], 'G-CLONE', b.key, '%s: droppable field `%s` is bit-copied, not cloned' % (what, c.name), key='%s.%d.%s.bitcopy' % (what, v, c.name))
+
     def fn_clone(self, b, v, extra):
         it, res = self.interp(b, 'clone')
         props = ['C16']
         for st, ret in self.returns(b, res, props):
-            def src_name(o):
-                # ('call', path, id, (('ref', ...)|('ref_cell', oid,k,T,mut,origin),)) or plain copy origin
-                if o and o[0] == 'call' and o[1].endswith('::clone') and len(o[3]) == 1 and o[3][0][0] == 'ref_cell':
-                    rc = o[3][0]
-                    return rc[5][-1] if rc[5] else None, (rc[2], rc[3]), rc[5]
-                if o and o[0] == 'arg':
-                    return o[-1], None, o
-                return None, None, o
             if not isinstance(ret, Rec):
                 self.add(props, 'G-SHAPE', b.key, 'clone does not return the record type')
                 continue
-            for c in self.F[v]:
-                cell = self.cell_of(st, ret.oid, c)
-                if cell is None:
-                    self.add(props, 'G-CLONE', b.key, 'clone: field `%s` is not initialised in the copy' % c.name, key='clone.%d.%s' % (v, c.name))
-                    continue
-                o = self.origin(st, cell.val)
-                nm, kt, full = src_name(o)
-                ok = nm is not None and self.cn(v, nm) == self.cn(v, c.name) and full is not None and full[:3] == ('arg', 1, '*') and (kt is None or kt == (c.k, c.ty))
-                if not ok:
-                    self.add(props, 'G-CLONE', b.key, 'clone: field `%s` of the copy comes from %s, expected a clone/copy of the source\'s `%s`' % (c.name, o, c.name), key='clone.%d.%s' % (v, c.name))
-                if c.needs_drop and o and o[0] == 'arg':
-                    self.add(props + ['C06'], 'G-CLONE', b.key, 'clone: droppable field `%s` is bit-copied, not cloned' % c.name, key='clone.%d.%s.bitcopy' % (v, c.name))
+            self.check_clone_cells(b, st, ret.oid, v, 1, props)
 
     def fn_clone_from(self, b, v, extra):
         it, res = self.interp(b, 'clone_from')
@@ -830,6 +850,16 @@ class Module:
             done = defaultdict(int)
             oids = {e[1][:2]: e[2] for e in st.events if e[0] == 'arg_rec'}
             self_oid, src_oid = oids.get(('arg', 1)), oids.get(('arg', 2))
+            # whole-record formulation: `*self = <a clone of source>` (the old contents are destroyed
+            # by the assignment; the interpreter checks that they are, exactly once, on every path)
+            hid = getattr(it, 'mut_params', {}).get(1)
+            now = st.hidden.get(hid) if hid is not None else None
+            if isinstance(now, Rec) and now.oid != self_oid:
+                if now.v != v:
+                    self.add(props, 'G-SHAPE', b.key, 'clone_from leaves a CappedRecord%s behind `self`' % now.v)
+                else:
+                    self.check_clone_cells(b, st, now.oid, v, 2, props, what='clone_from')
+                continue
             names_at = defaultdict(list)
             for c in self.F[v]:
                 names_at[(c.k, c.ty)].append(c.name)
